@@ -222,6 +222,10 @@ def gen_spec(seed, **force):
     spec["levels"] = [gen_level(rng, l, height, dim, engines[l] if engines else None) for l in range(height)]
     for lv, patch in zip(spec["levels"], force.get("levels_patch") or []):
         lv.update(patch or {})
+    if force.get("local_method"):          # C01 quantifies over the L-BFGS-B local deme only (scipy's Powell line search probes a few ulps beyond a face)
+        for lv in spec["levels"]:
+            if lv["engine"] == "Local":
+                lv["method"] = force["local_method"]
     spec["gsc"] = force.get("gsc") or gen_gsc(rng, height)
     spec["sprout"] = force.get("sprout") or gen_sprout(rng, height)
     spec["hibernation"] = force.get("hibernation", rng.random() < 0.35)
